@@ -25,7 +25,7 @@ import (
 func init() { lib.Register("C05", run) }
 
 type step struct {
-	Op     string `json:"op"`     // issue | handout | genuine | forge | replay-final
+	Op     string `json:"op"` // issue | handout | genuine | forge | replay-final | die
 	Agent  int    `json:"agent"`
 	Layout string `json:"layout,omitempty"`
 	IDKind string `json:"id_kind,omitempty"` // never | other | completed | zero | max
@@ -148,6 +148,26 @@ func runHistory(c *lib.Ctx, h history) (sig, what string) {
 			}
 			w.queue[a] = nil
 			w.rec.Take()
+		case "die":
+			// the session ends with a genuine final exit callback (a task is issued and handed
+			// out for it); forged callbacks that follow meet a dead session
+			w.next++
+			id := w.next
+			rig.TaskSimple(r.TS, w.sims[a].Hex(), id)
+			w.checkin(a)
+			w.queue[a] = nil
+			var p demon.Pkg
+			p.I32(uint32(1 + st.Pick%2))
+			if resp := w.checkin(a, demon.Callback{Cmd: 92, ReqID: id, Body: p.B}); resp.Panic != nil {
+				return lib.PanicSig(resp.Panic, resp.Stack), fmt.Sprintf("step %d: exit callback panics: %v", si, resp.Panic)
+			}
+			w.done[a] = append(w.done[a], id)
+			w.rec.Take()
+			for _, ag := range r.TS.Agents.Agents {
+				if ag.NameID == w.sims[a].Hex() && !ag.Active {
+					c.Observe("sessions-ended-by-exit-callback", 1)
+				}
+			}
 		case "genuine":
 			var id uint32
 			for k := range w.out[a] {
@@ -283,6 +303,10 @@ func gen(rng *rand.Rand) history {
 		if rng.Intn(3) != 0 {
 			h.Steps = append(h.Steps, step{Op: "handout", Agent: a})
 		}
+	}
+	if rng.Intn(3) == 0 {
+		// one session is dead for the rest of the history (not the pivot parent)
+		h.Steps = append(h.Steps, step{Op: "die", Agent: 1 + rng.Intn(2), Pick: rng.Intn(2)})
 	}
 	n := 12 + rng.Intn(18)
 	finals := []string{"checkin.meta", "fs.download.close", "sleep.fixed", "config.killdate"}
